@@ -285,3 +285,89 @@ def linear_coefficients(fn, tapes, rng, tol=1e-10):
         if any(abs(a - b) > 1e-8 for a, b in zip(got, exp)):
             raise NotExtractable("post-processing is not linear in the tape results")
     return C, slots
+
+
+# ----------------------------------------------------------------------------- degree-2 post-processing (metric tensor)
+def quadratic_coefficients(fn, tapes, rng, tol=1e-9):
+    """fn(results) is assumed to be a polynomial of degree <= 2 in the flattened tape results r (metric_tensor:
+    covariances are products of probabilities).  Returns (rows, slots) with rows[r] = (c0, lin{a: c}, quad{(a,b): c}, a<=b);
+    the model is verified on random inputs."""
+    slots = []
+    for k, t in enumerate(tapes):
+        for mi, m in enumerate(t.measurements):
+            shp = _mshape(t, m)
+            bs = t.batch_size or 1
+            sz = (int(np.prod(shp)) if shp else 1) // bs
+            for b in range(bs):
+                for i in range(sz):
+                    slots.append((k, b, mi, i))
+    N = len(slots)
+
+    def build(vec):
+        res = []
+        p = 0
+        for k, t in enumerate(tapes):
+            rs = []
+            for mi, m in enumerate(t.measurements):
+                shp = _mshape(t, m)
+                sz = int(np.prod(shp)) if shp else 1
+                a = np.array(vec[p:p + sz], dtype=float)
+                p += sz
+                rs.append(a.reshape(shp) if shp else np.float64(a[0]))
+            res.append(rs[0] if len(rs) == 1 else tuple(rs))
+        return tuple(res)
+
+    def f(vec):
+        return np.array(flatten_results(fn(build(list(vec)))), dtype=float)
+    z = np.zeros(N)
+    f0 = f(z)
+    R = len(f0)
+    f1, f2 = [], []
+    for a in range(N):
+        e = z.copy(); e[a] = 1.0
+        f1.append(f(e))
+        e[a] = 2.0
+        f2.append(f(e))
+    A = np.zeros((R, N, N))
+    B = np.zeros((R, N))
+    for a in range(N):
+        # f(e) = c0 + b + q ; f(2e) = c0 + 2b + 4q
+        q = (f2[a] - 2 * f1[a] + f0) / 2.0
+        b = f1[a] - f0 - q
+        A[:, a, a] = q
+        B[:, a] = b
+    for a in range(N):
+        for b2 in range(a + 1, N):
+            e = z.copy(); e[a] = 1.0; e[b2] = 1.0
+            A[:, a, b2] = f(e) - f1[a] - f1[b2] + f0
+    for _ in range(3):
+        v = np.array([rng.uniform(-1, 1) for _ in range(N)])
+        got = f(v)
+        exp = f0 + B @ v + np.einsum("rab,a,b->r", A, v, v)
+        if np.max(np.abs(got - exp)) > 1e-8:
+            raise NotExtractable("post-processing is not a polynomial of degree <= 2 in the tape results")
+    rows = []
+    for r in range(R):
+        lin = {a: B[r, a] for a in range(N) if abs(B[r, a]) > tol}
+        quad = {(a, b2): A[r, a, b2] for a in range(N) for b2 in range(a, N) if abs(A[r, a, b2]) > tol}
+        rows.append((f0[r] if abs(f0[r]) > tol else 0.0, lin, quad))
+    return rows, slots
+
+
+def sym_inner(u, v):
+    acc = Sym.of(0)
+    for a, b in zip(u, v):
+        if a.t and b.t:
+            acc = acc + a.conjugate() * b
+    return acc
+
+
+def sym_metric(state, nparams):
+    """exact Fubini-Study metric polynomials G[i][j] of a symbolic state"""
+    ds = [[sym_pderiv(a, j) for a in state] for j in range(nparams)]
+    G = [[None] * nparams for _ in range(nparams)]
+    for i in range(nparams):
+        for j in range(nparams):
+            z = sym_inner(ds[i], ds[j]) - sym_inner(ds[i], state) * sym_inner(state, ds[j])
+            G[i][j] = (z + z.conjugate()) * Fr(1, 2)
+    return G
